@@ -71,6 +71,8 @@ func init() {
 			return num(int64(ex.w.typeID(types.NewPointer(layersPkg.Pkg.Scope().Lookup(name).Type()))))
 		}
 		pseudo := "true"
+		minlen := "0"
+		hdr := map[string]int64{"IPv4": 20, "IPv6": 40, "UDP": 8, "TCP": 20, "ICMPv4": 8, "ICMPv6": 4}
 		for i := int64(0); i < n.Int64(); i++ {
 			e := ex.sliceLoad(st, ls, num(i)) // interface value (tag, ref)
 			for _, lt := range []string{"IPv4", "IPv6", "UDP", "TCP", "ICMPv4", "ICMPv6"} {
@@ -84,6 +86,7 @@ func init() {
 						continue
 					}
 				}
+				minlen = app("+", minlen, ite(is, num(hdr[lt]), "0"))
 				p := Val{T: types.NewPointer(layersPkg.Pkg.Scope().Lookup(lt).Type()), L: []string{e.L[1]}}
 				rec := func(ghost, field string) {
 					v, ok := ex.fieldOf(st, p, field)
@@ -153,6 +156,7 @@ func init() {
 			}
 		}
 		ex.setGhost(st, "ser.pseudo", pseudo)
+		ex.setGhost(st, "ser.minlen", minlen)
 		e := ex.freshVal(errorT(), st, "sererr")
 		ex.assumeExternalError(e)
 		return e
@@ -163,7 +167,9 @@ func init() {
 		t := types.NewSlice(types.Typ[types.Byte])
 		v := ex.freshVal(t, c.st, "serbytes")
 		if ex.pure == 0 {
-			ex.assume(app(">", v.L[0], "0"))
+			// ASSUMED: the buffer holds at least the fixed headers of the layers serialized last
+			ex.registerKey("X|ser.minlen", sInt)
+			ex.assume(and(app(">", v.L[0], "0"), app("<=", ex.heapGet(c.st, "X|ser.minlen", sInt), v.L[2])))
 		}
 		return v
 	})
